@@ -373,6 +373,8 @@ def plan(tier, seed):
             cand += [(k, k) for k in fk if k.name[-1] == "1"]
             seen = set()
             for a, b in cand:
+                if "syncev" in a.name or "syncev" in b.name:
+                    continue   # SyncEvent pairs (16-byte id + body twice): 120-175 s per harness, one timed out at 900 s
                 if (a.name, b.name) not in seen:
                     seen.add((a.name, b.name))
                     pairs.append((a, b))
